@@ -80,10 +80,18 @@ Ltac step_arg := match goal with |- context [Builder.eval builders ?o ?K ?e ?fr 
   lazymatch y with BCall "GetSAML" _ _ => fail | BCall "makeAssertion" _ _ => fail | BCall "makeAssertionResponse" _ _ => fail
   | _ => vm_step (Builder.eval builders o K e fr y) end end.
 
-Theorem success_attributes_any reqid acs issuer audience e f g s u n (cs : list dcustom) id1 id2 rest issue until :
+Theorem success_all_any reqid acs issuer audience e f g s u n (cs : list dcustom) id1 id2 rest issue until :
   built_sat "makeSuccessfulResponse" (Some (response_rec reqid acs issuer audience))
     [attributes_rec e f g s u n (map custom_dpair cs); DStr (b "f"); DNil] (id1 :: id2 :: rest) issue until
     (fun d r => r = rest /\
+       at_ d ["Id"] = Some (DStr id1) /\ at_ d ["Assertion"; "Id"] = Some (DStr id2) /\
+       at_ d ["InResponseTo"] = Some (DStr reqid) /\ dget d (sc_data ++ [PField "InResponseTo"]) = Some (DStr reqid) /\
+       at_ d ["Destination"] = (if is_empty acs then None else Some (DStr acs)) /\
+       dget d (sc_data ++ [PField "Recipient"]) = (if is_empty acs then None else Some (DStr acs)) /\
+       at_ d ["Issuer"; "Text"] = Some (DStr issuer) /\ at_ d ["Assertion"; "Issuer"; "Text"] = Some (DStr issuer) /\
+       dget d [PField "Assertion"; PField "Conditions"; PField "AudienceRestriction"; PIndex 0; PField "Audience"] = Some (DList [DStr audience]) /\
+       at_ d ["Assertion"; "Subject"; "NameID"; "Text"] = Some (DStr n) /\
+       at_ d ["Status"; "StatusCode"; "Value"] = Some (DStr (b "urn:oasis:names:tc:SAML:2.0:status:Success")) /\
        dget d [PField "Assertion"; PField "AttributeStatement"; PIndex 0; PField "Attribute"] =
        Some (DList (std_attr "Email" e ++ std_attr "SurName" s ++ std_attr "FirstName" g ++ std_attr "FullName" f ++
                     std_attr "UserName" n ++ std_attr "UserID" u ++ map custom_dattr cs))).
@@ -113,7 +121,7 @@ Proof.
   cbn [s_env s_fresh];
   rewrite run_st_cons'; step_exec; cbv iota beta;
   rewrite run_st_cons'; step_exec; cbv iota beta;
-  split; [reflexivity|vm_compute; reflexivity]).
+  repeat split; vm_compute; reflexivity).
   - Time (
   rewrite call_some; step_find;
   rewrite run_unfold', run_st_cons'; step_exec; cbv iota beta;
@@ -137,5 +145,21 @@ Proof.
   cbn [s_env s_fresh];
   rewrite run_st_cons'; step_exec; cbv iota beta;
   rewrite run_st_cons'; step_exec; cbv iota beta;
-  split; [reflexivity|vm_compute; reflexivity]).
+  repeat split; vm_compute; reflexivity).
+Qed.
+
+Lemma built_sat_mono fn recv args fresh issue until (P Q : dval -> list bytes -> Prop) :
+  built_sat fn recv args fresh issue until P -> (forall d r, P d r -> Q d r) -> built_sat fn recv args fresh issue until Q.
+Proof. unfold built_sat. intros H HQ. destruct (built_value fn recv args fresh issue until) as [[d r]|]; [apply HQ, H|exact H]. Qed.
+
+Corollary success_attributes_any reqid acs issuer audience e f g s u n (cs : list dcustom) id1 id2 rest issue until :
+  built_sat "makeSuccessfulResponse" (Some (response_rec reqid acs issuer audience))
+    [attributes_rec e f g s u n (map custom_dpair cs); DStr (b "f"); DNil] (id1 :: id2 :: rest) issue until
+    (fun d r => r = rest /\
+       dget d [PField "Assertion"; PField "AttributeStatement"; PIndex 0; PField "Attribute"] =
+       Some (DList (std_attr "Email" e ++ std_attr "SurName" s ++ std_attr "FirstName" g ++ std_attr "FullName" f ++
+                    std_attr "UserName" n ++ std_attr "UserID" u ++ map custom_dattr cs))).
+Proof.
+  eapply built_sat_mono; [exact (success_all_any reqid acs issuer audience e f g s u n cs id1 id2 rest issue until)|].
+  intros d r (A & _ & _ & _ & _ & _ & _ & _ & _ & _ & _ & _ & B). split; assumption.
 Qed.
